@@ -95,10 +95,10 @@ def generator(c):
     # several strobes at once: the FSM sends one of the requested kinds
     c.inv("multi_request_state_is_a_requested_kind", z3.Implies(z3.And(z3.Not(idle), z3.Not(single)), z3.Or(
         *[z3.And(fsm.is_(STATE[k]), bits(mask, k - 1) == 1) for k in (ACK, STALL, NRDY, ERDY)])))
-    c.inv("latched_address", z3.Implies(z3.Not(idle), ts.sig("device_address") == g_addr))
-    c.inv("latched_endpoint", z3.Implies(z3.Not(idle), ts.sig("endpoint_number") == g_ep))
-    c.inv("latched_retry", z3.Implies(z3.Not(idle), ts.sig("data_error") == g_retry))
-    c.inv("latched_sequence", z3.Implies(z3.Not(idle), ts.sig("next_sequence") == g_seq))
+    c.try_inv("latched_address", lambda: z3.Implies(z3.Not(idle), ts.sig("device_address") == g_addr))
+    c.try_inv("latched_endpoint", lambda: z3.Implies(z3.Not(idle), ts.sig("endpoint_number") == g_ep))
+    c.try_inv("latched_retry", lambda: z3.Implies(z3.Not(idle), ts.sig("data_error") == g_retry))
+    c.try_inv("latched_sequence", lambda: z3.Implies(z3.Not(idle), ts.sig("next_sequence") == g_seq))
 
     # ---- header fields at the spec's bit positions
     dw0, dw1 = O["dw0"], O["dw1"]
